@@ -226,6 +226,20 @@ def _check_call(case):
     return bad
 
 
+_SNAP_DIR: list = []
+
+
+def _snapshot_path():
+    if not _SNAP_DIR or _SNAP_DIR[0][0] != os.getpid():
+        import atexit
+        from multiprocessing.util import Finalize
+        d = tempfile.mkdtemp(prefix="vf_c13_snap_")
+        _SNAP_DIR[:] = [(os.getpid(), d)]
+        atexit.register(shutil.rmtree, d, True)
+        Finalize(None, shutil.rmtree, args=(d, True), exitpriority=1)  # (pool workers leave through os._exit)
+    return os.path.join(_SNAP_DIR[0][1], "last_error.pkl")
+
+
 def _reproduce(snap, kind, where):
     bad = []
     progs.set_fail({"func": snap.function.__name__, "call": None, "exc": progs.EXC_FACTORIES[kind]})
@@ -234,16 +248,15 @@ def _reproduce(snap, kind, where):
             if s is None and any(isinstance(v, progs.Handle) for v in list(snap.kwargs.values()) + list(snap.args)):
                 continue  # (a snapshot can only be written to a file when the arguments can be pickled)
             if s is None:
-                fd, path = tempfile.mkstemp(prefix="vf_c13_", suffix=".pkl")
-                os.close(fd)
+                # one file per worker process, written again and again (a user keeps saving "the last error" to the same
+                # place): what is loaded must be what was saved last
+                path = _snapshot_path()
                 try:
                     snap.save_to_file(path)
                     s = type(snap).load_from_file(path)
                 except Exception as e:  # noqa: BLE001
                     bad.append(f"{where}: snapshot save/load raised {type(e).__name__}: {str(e)[:100]}")
                     continue
-                finally:
-                    os.unlink(path)
             try:
                 s.reproduce()
                 bad.append(f"{where}: {label}reproduce() did not raise")
